@@ -38,6 +38,8 @@ class Contract(object):
         self.result_fresh = kw.pop('result_fresh', False)
         self.note = kw.pop('note', '')
         self.variant_of = kw.pop('variant_of', None)
+        self.consts = kw.pop('consts', {})              # parameter -> concrete Python value (specialised variant)
+        self.variants = kw.pop('variants', {})          # (param, value) -> qual of the specialised contract
         if kw:
             raise TypeError('unknown contract keys %s for %s' % (sorted(kw), qual))
 
@@ -128,6 +130,7 @@ class SpecEval(object):
     def __init__(self, st, env, modname, old=None, result=None, extra=None):
         self.st, self.env, self.modname, self.old, self.result = st, env, modname, old, result
         self.extra = extra or {}       # bound quantifier variables / lets
+        self.typing = []               # typed-heap facts (E-PARSE / declared invariants) about the fields read
 
     # ---- entry points
     def bool(self, text):
@@ -175,16 +178,29 @@ class SpecEval(object):
         return self.getfield(base, n.attr)
 
     def getfield(self, base, attr):
+        if isinstance(base, SV) and base.has_py and base.py is None:
+            base = None
+        if base is None:
+            return None         # total semantics: attribute of the constant None is None
         if not isinstance(base, SV):
             raise SpecError('attribute %s of non-object %r' % (attr, base))
         ty = Ty.strip_opt(base.ty)
         fty = Ty.ANY
+        term = self.st.field(attr)[va(base.term)]
         if isinstance(ty, Ty.TInst):
             ft = field_type(ty.cls, attr)
             if ft is not None:
                 fty = ft
-        term = self.st.field(attr)[va(base.term)]
+                if not self.extra_has_bound():
+                    a = va(base.term)
+                    self.typing.append(Implies(And(is_ref(base.term), a >= 0, a < self.st.nxt, KIND(a) == K_INST,
+                                                   cls_in(CLS(a), ty.cls)), shape(self.st, term, ft)))
         return SV(term, fty)
+
+    def extra_has_bound(self):
+        """inside a quantifier the fact would mention a bound variable: skipped"""
+        return any(z3.is_expr(v) and z3.is_const(v) and str(v).startswith('q_') for v in self.extra.values()) or \
+            any(isinstance(v, SV) and str(v.term).startswith('q_') for v in self.extra.values())
 
     def ev_Subscript(self, n):
         base = self.ev(n.value)
@@ -309,6 +325,10 @@ class SpecEval(object):
         return And(*out)
 
     def equal(self, a, b):
+        if isinstance(a, SV) and a.has_py and isinstance(a.py, front.CONST_TYPES):
+            a = a.py
+        if isinstance(b, SV) and b.has_py and isinstance(b.py, front.CONST_TYPES):
+            b = b.py
         ka, kb = kind_of(a), kind_of(b)
         if ka == 'py' and kb == 'py':
             return z3.BoolVal(a == b)
@@ -411,6 +431,7 @@ class SpecEval(object):
                 args = [self.ev(a) for a in n.args]
                 sub = SpecEval(self.st, self.env, self.modname, self.old, self.result,
                                dict(self.extra, **dict(zip(params, args))))
+                sub.typing = self.typing
                 return sub.ev(_parse(body))
         if isinstance(n.func, ast.Attribute):
             base = self.ev(n.func.value)
@@ -431,6 +452,7 @@ class SpecEval(object):
         if self.old is None:
             raise SpecError('old() outside a two-state context')
         sub = SpecEval(self.old, self.env, self.modname, None, None, self.extra)
+        sub.typing = self.typing
         return sub.ev(n.args[0])
 
     def fn_implies(self, n):
